@@ -511,6 +511,19 @@ func runScenario(cs *core.Case, r *rand.Rand, o scenarioOpts, tag string) *finge
 		}
 		lastCommit = seen
 	}
+	if cs.I < 2 && (tag == "first" || tag == "corpus") {
+		var hs []map[string]interface{}
+		for _, h := range fp.Heights {
+			if len(hs) < 4 {
+				hs = append(hs, map[string]interface{}{"height": h.Height, "mode": h.Mode, "built_by": h.Proposer, "block": h.Block, "txs": h.Txs, "receipts": h.Receipts, "app_hash": h.AppHash, "info": h.Info, "state": h.State, "app_validators": h.Vals})
+			}
+		}
+		var names []string
+		for _, c := range rs.cfgs {
+			names = append(names, c.Name)
+		}
+		run.Sample(map[string]interface{}{"group": cs.Group, "case": cs.I, "validators": o.NVals, "galaxias": o.Galaxias, "replicas": names, "val_hook": o.ValHook, "staking": o.Staking, "evidence": o.Evidence, "reopen": o.Reopen, "first_heights": hs})
+	}
 	return fp
 }
 
